@@ -161,6 +161,86 @@ example : ∀ op ∈ [Op.create [([3, 0, 1, 97], 2)], .delKey ([3, 0, 1, 97], 2)
   have hk : KeyOK (fun _ => 2) ([3, 0, 1, 97], 2) := ⟨rfl, by decide, [0, 1, 97], rfl, by decide, by decide⟩
   rcases h with rfl | rfl | rfl | rfl | rfl | rfl <;> simp [Op.WF] <;> exact hk
 
+/-! ## Several segments: `openSegments` after a roll-over, and the model the driver runs -/
+
+theorem openSeqGo_gt (seq : Nat) (hseq : 0 < seq) : ∀ (l : List (List Entry)),
+    (∀ es ∈ l, ∀ e ∈ es, e.flag = insertFlag → seq ≤ e.id) →
+    l.Pairwise (fun newer older => ∀ a ∈ newer, ∀ b ∈ older, a.flag = insertFlag → b.flag = insertFlag → b.id < a.id) →
+    seq ≤ openSeqGo seq l ∧ ∀ es ∈ l, ∀ e ∈ es, e.flag = insertFlag → e.id < openSeqGo seq l
+  | [], _, _ => ⟨Nat.le_refl _, fun es hes => by cases hes⟩
+  | es :: rest, hpos, hord => by
+    have hp := List.pairwise_cons.mp hord
+    simp only [openSeqGo]
+    by_cases hm : SF.maxSeriesID es ≥ seq
+    · simp only [hm, if_true]
+      refine ⟨by simp only [partN]; omega, ?_⟩
+      intro es' hes' e he hf
+      rcases List.mem_cons.mp hes' with rfl | hr
+      · have := maxSeriesID_ge es' e he hf
+        simp only [partN]; omega
+      · -- an older segment: below the insert entry of `es` that carries the maximum
+        rcases maxSeriesID_mem es with h0 | ⟨x, hx, hfx, hidx⟩
+        · omega
+        · have := hp.1 es' hr x hx e he hfx hf
+          simp only [partN]; omega
+    · simp only [hm, if_false]
+      have hnone : ∀ e ∈ es, e.flag = insertFlag → False := by
+        intro e he hf
+        have h1 := maxSeriesID_ge es e he hf
+        have h2 := hpos es (by simp) e he hf
+        omega
+      obtain ⟨i1, i2⟩ := openSeqGo_gt seq hseq rest (fun es' hes' => hpos es' (by simp [hes'])) hp.2
+      refine ⟨i1, ?_⟩
+      intro es' hes' e he hf
+      rcases List.mem_cons.mp hes' with rfl | hr
+      · exact absurd (hnone e he hf) id
+      · exact i2 es' hr e he hf
+
+/-- **`openSegments` after any number of roll-overs**: the id sequence recomputed at open (reverse
+    search for the last segment that holds an insert entry) exceeds EVERY id in EVERY segment —
+    also when the newest segments hold no insert entry at all (a tombstone rolled the log over,
+    or a create died right after `createSegment`).  `segs`: the entries of the segments, oldest
+    first; ids grow from older to newer segments and are at least `pid + 1`. -/
+theorem openSeq_gt (pid : Nat) (segs : List (List Entry))
+    (hpos : ∀ es ∈ segs, ∀ e ∈ es, e.flag = insertFlag → pid + 1 ≤ e.id)
+    (hord : segs.Pairwise (fun older newer => ∀ a ∈ older, ∀ b ∈ newer, a.flag = insertFlag →
+      b.flag = insertFlag → a.id < b.id)) :
+    pid + 1 ≤ openSeq pid segs ∧ ∀ es ∈ segs, ∀ e ∈ es, e.flag = insertFlag → e.id < openSeq pid segs := by
+  have := openSeqGo_gt (pid + 1) (by omega) segs.reverse
+    (fun es hes => hpos es (by simpa using hes))
+    (List.pairwise_reverse.mpr (hord.imp (fun h a ha b hb hfa hfb => h b hb a ha hfb hfa)))
+  exact ⟨this.1, fun es hes => this.2 es (by simpa using hes)⟩
+
+-- e.g. ids 1, 9 in segment fff0, a tombstone alone in segment fff1: the sequence continues at 17
+example : openSeq 0 [[⟨1, 1, [3, 0, 1, 97], 5⟩, ⟨1, 9, [3, 0, 1, 98], 18⟩], [⟨2, 9, [], 5⟩]] = 17 := by decide
+
+/-- while no roll-over is possible the driver's model IS the single-segment model -/
+theorem runM_eq_run : ∀ (ops : List Op) (s : State),
+    (∀ x ∈ statesM s ops, plainFor x.1 x.2 = true) → runM s ops = run s ops
+  | [], _, _ => rfl
+  | o :: os, s, h => by
+    have h1 : plainFor s o = true := h (s, o) (by simp [statesM])
+    have hs : stepM s o = step s o := by simp [stepM, h1]
+    simp only [runM, run, hs]
+    congr 1
+    exact runM_eq_run os _ (fun x hx => h x (by simp [statesM, hs, hx]))
+
+/-- **C13 on the model the driver runs** (`stepM`: single-segment model while no partition can
+    roll over, general multi-segment model otherwise).  Same statement as `C13_holdsOn_partial`,
+    with the extra explicit hypothesis `plainFor`: every partition still has the single segment
+    0000 and the op cannot fill it (4 MB).  Histories WITH roll-over are covered by
+    `openSeq_gt` (the sequence recomputed at open), by the correspondence run (tiny segments
+    `fff0`…, tombstone- and crash-induced roll-overs) and by the statement checker on the real
+    code; the whole-history theorem for them is not proved. -/
+theorem C13_holdsOnM_partial (pf : Bytes → Nat) (ops : List Op) (hwf : ∀ op ∈ ops, Op.WF pf op)
+    (hplain : ∀ x ∈ statesM init ops, plainFor x.1 x.2 = true)
+    (hsm : ∀ x ∈ runM init ops, Obs.small x.2) : holdsOn (runM init ops) = true := by
+  rw [runM_eq_run ops init hplain] at hsm ⊢
+  exact C13_holdsOn_partial pf ops hwf hsm
+
+example : ∀ x ∈ statesM init [Op.create [([3, 0, 1, 97], 2)], .delKey ([3, 0, 1, 97], 2), .reopen, .compact 2],
+    plainFor x.1 x.2 = true := by decide
+
 /-! ## Where the full statement fails (both reproduced on the real code by the check) -/
 
 /-- **The crash clause at full strength is false**: a series whose name ends in NUL exists
